@@ -78,7 +78,7 @@ async def run(
     # Wait for all processes to be done
     try:
         await asyncio.gather(*processes)
-    except BaseException:
+    except (Exception, asyncio.CancelledError):
         # If one simulator fails, the other simulators' processes must
         # not be left pending (or even continue stepping).
         for process in processes:
